@@ -219,7 +219,7 @@ func listVia(base, prefix, name string) (int, []hdr, error) {
 
 var propE2E = hx.Prop[ECase]{
 	ID: pid, Name: "e2e",
-	Rule: "an accepted address from the same grammar (names with '/' excluded: unroutable, that is C14's finding) receives one message by " +
+	Rule: "an accepted address from the same grammar receives one message by " +
 		"SMTP; REST list and web-UI source must find it under the original address, the mailbox name, a re-cased and a +ext spelling, with " +
 		"the JSON mailbox field equal to the delivery mailbox, and a POP3 login under each spelling must show it; non-trivial as for naming",
 	Quick: 150, Thorough: 1200,
@@ -244,13 +244,8 @@ func runE2E(c ECase) *hx.Outcome {
 		return o
 	}
 	defer w.Close()
-	rcpt, err := w.Policy.NewRecipient(c.Addr)
-	if err != nil {
+	if _, err := w.Policy.NewRecipient(c.Addr); err != nil {
 		o.Class("refused by RCPT")
-		return o
-	}
-	if strings.Contains(rcpt.Mailbox, "/") {
-		o.Class("excluded: name contains '/' (C14 finding)")
 		return o
 	}
 	o.Class("accepted by RCPT")
@@ -305,9 +300,6 @@ func runE2E(c ECase) *hx.Outcome {
 		}
 	}
 	for kind, sp := range spellings {
-		if strings.Contains(sp, "/") {
-			continue
-		}
 		code, l, err := listVia(w.HTTP.URL, "", sp)
 		if err != nil {
 			o.Failf(pid+":rest-error", "REST list as %s %q: %v", kind, sp, err)
